@@ -451,6 +451,8 @@ func checkC15(p *Prog, rp *Report) {
 			{"decoy data member", mk("data.tar"), mustFail("a package with two data members")},
 			{"control.tar.gz plus control.sig", mk("control.sig"), mustFail("a package with two control.* members")},
 			{"repeated member", mk("data.tar.xz"), mustFail("a package that repeats a member name")},
+			{"decoy control.x.tar.gz", mk("control.x.tar.gz"), mustFail("a package with a second member whose name starts with control.")},
+			{"decoy data.x.tar.gz", mk("data.x.tar.gz"), mustFail("a package with a second member whose name starts with data.")},
 			{"unrelated extra members", mk("_gpgorigin", "zzz"), okLoad},
 		}
 		problems, undec, runs := runLoaderCases(p, cases)
@@ -648,7 +650,7 @@ func checkC16(p *Prog, rp *Report) {
 	}
 	// same members as the loader
 	if undec == "" {
-		for _, decoy := range []string{"control.tar", "data.tar.gz", "control.sig"} {
+		for _, decoy := range []string{"control.tar", "data.tar.gz", "control.sig", "control.x.tar.gz", "data.x.tar.gz"} {
 			ms := append(append([]string(nil), members...), decoy)
 			outs := run(ms, "origin", true)
 			if undec != "" {
@@ -692,7 +694,7 @@ func checkC16(p *Prog, rp *Report) {
 	}
 	fillProblems(role, "deb.Deb.CheckDebsig", pos, roleP, "8 roles against a package signed as origin only; missing debian-binary")
 	fillProblems(stream, "deb.Deb.CheckDebsig", pos, streamP, "keyring, signed stream (order, own readers over whole members, no seek on the shared ones), signature member and returned results, for a verifying and a failing library verdict")
-	fillProblems(same, "deb.Deb.CheckDebsig", pos, sameP, "3 decoys and a repeated name: verification and loading fail in every iteration order")
+	fillProblems(same, "deb.Deb.CheckDebsig", pos, sameP, "5 decoys and a repeated name: verification and loading fail in every iteration order")
 }
 
 func stripIface(v ssa.Value) ssa.Value {
